@@ -409,7 +409,12 @@ def streams(ctx: lib.Ctx) -> None:
             n_fail += 1
             if key not in first_by_key:
                 first_by_key[key] = (spec, detail)
-    for n_key, (key, (spec, detail)) in enumerate(sorted(first_by_key.items())):
+    # scopes that no verify looks at (refuted part of the statement) are reported last, so
+    # that a failure inside a checked scope is never crowded out of the printed violations
+    unchecked = ({f"constants:{t}" for t in g.TARGETS} | {f"functions:{t}" for t in g.TARGETS}
+                 | {"literals:csharp", "literals:java", "accessors:java", "generated:python:visitors"})
+    ordered = sorted(first_by_key.items(), key=lambda kv: (kv[0] in unchecked, kv[0]))
+    for n_key, (key, (spec, detail)) in enumerate(ordered):
         small = spec if (spec.get("corpus") or n_key >= 6) else shrink(spec, key)
         ssrc, sres = run_verify([small], generate=True)
         det = [d for k, d in oracle(sres[0]) if k == key] if sres[0]["front"] is None else [detail]
